@@ -291,6 +291,9 @@ namespace ip {
 			if (p.buffer.empty()) break;
 		}
 
+		// whatever didn't fit in the caller's buffers is discarded with the
+		// packet, and no longer occupies the receive buffer
+		m_queue_size -= int(p.buffer.size());
 		m_incoming_queue.erase(m_incoming_queue.begin());
 		return read;
 	}
